@@ -2,7 +2,7 @@
    Only ExtrOcamlBasic is used: bool, option, unit, list, prod, sumbool map to
    OCaml's; positive/N/Z/nat stay the extracted inductive types. *)
 From Coq Require Extraction ExtrOcamlBasic.
-From PV Require Import Base.Common Model.LabelScope Model.Syntax Model.VarScope Proofs.VarScopeProofs Base.IR Model.Lower Model.Sem Model.Expand Model.Header Model.Containers Model.Layout Model.Literal Gen.Linkage Base.Tok Model.LexAlpha Model.LexDelta Model.Cli Model.RefParser Model.Resolve Model.Cfg Model.Mutability Model.DeltaNodes Model.TypeLegal Proofs.ResolveProofs Model.LintWalk Model.Escape Model.MemLower Model.OutPath Model.Loc.
+From PV Require Import Base.Common Model.LabelScope Model.Syntax Model.VarScope Proofs.VarScopeProofs Base.IR Model.Lower Model.Sem Model.Expand Model.Header Model.Containers Model.Layout Model.Literal Gen.Linkage Base.Tok Model.LexAlpha Model.LexDelta Model.Cli Model.RefParser Model.Resolve Model.Cfg Model.Mutability Model.DeltaNodes Model.TypeLegal Proofs.ResolveProofs Model.LintWalk Model.Escape Model.MemLower Model.OutPath Model.Loc Model.DeltaExpr.
 
 Extraction Language OCaml.
 Separate Extraction
@@ -31,6 +31,7 @@ Separate Extraction
   Containers.run Sem.run_main Expand.expand_sorted Expand.get_key_offset Header.build_header Header.header_spec Header.zones_wfb Header.refs_localb
   VarScope.an_program VarScope.spec_program VarScopeProofs.once VarScopeProofs.events
   OutPath.ll_path OutPath.is_pn_module
+  DeltaExpr.parse_expression DeltaExpr.parse_expression_res DeltaExpr.fold_negative_literals DeltaExpr.admissible RefParser.parse_expr
   Loc.combined_with Loc.comparison_key Loc.key_leb Loc.key_eqb
   LintWalk.lint_module LintWalk.lint_positions LintWalk.occs_decl
   Escape.rebuild_const_string Escape.rebuild_import Escape.rebuild_string
